@@ -182,3 +182,26 @@ def isotp_wire_mismatches(iface: str, want: dict[str, Any], sock_log: list[tuple
     if len(binds) != 1 or tuple(binds[0][1]) != (iface, rx, tx):
         out.append(("bind", f"wrong-value: expected bind(({iface!r}, rx={rx:#x}, tx={tx:#x})), saw {[b[1] for b in binds]!r}"))
     return out
+
+
+# -- integer literals per entry-point family (None = not a numeral of that family) ------------------------
+
+
+def ref_base0(text: str) -> int | None:
+    """decimal (no leading zero), 0x hex, 0o octal, 0b binary"""
+    t = text.lower()
+    for prefix, digits in (("0x", "0123456789abcdef"), ("0o", "01234567"), ("0b", "01")):
+        if t.startswith(prefix):
+            body = t[2:]
+            return int(body, len(digits)) if body and all(c in digits for c in body) else None
+    if t.isdigit() and t.isascii() and (t == "0" or not t.startswith("0")):
+        return int(t, 10)
+    return None
+
+
+def ref_base16(text: str) -> int | None:
+    """hex digits with an optional 0x prefix (fields declared as hex)"""
+    t = text.lower()
+    if t.startswith("0x"):
+        t = t[2:]
+    return int(t, 16) if t and all(c in "0123456789abcdef" for c in t) else None
